@@ -12,6 +12,7 @@ Granularities (which trace events are scheduling points):
            process-wide model cache), call events of every other library function
   'calls'  call events of every library function
   ('files', suffixes)  call events of every function defined in the named source files
+  ('dirs', fragments)  call events of every function defined in a file whose path contains one of the fragments
   'methods' call events of extract()/parse() methods only (few points per call: used for 2-preemption bounds)
   'coarse' call events of extract()/parse() methods and of every function defined in the orchestrating
            modules (merged extractor/parser, model classes, model factory): the method boundaries of the
@@ -108,6 +109,12 @@ class Execution(object):
             if isinstance(gran, tuple) and gran[0] == 'files':     # ('files', suffixes): every call of a function defined there
                 if fn.endswith(gran[1]):
                     point(tid)
+                return None
+            if isinstance(gran, tuple) and gran[0] == 'dirs':      # ('dirs', fragments): every call of a function defined under them
+                for d in gran[1]:
+                    if d in fn:
+                        point(tid)
+                        break
                 return None
             if gran == 'methods':
                 if frame.f_code.co_name in COARSE_NAMES:
